@@ -20,9 +20,15 @@ from . import common
 from . import c20_sched as S
 
 PROPERTY = 'C20'
-LEAN_TARGETS = ['CpProofs.C20', 'drv_c20']
+LEAN_TARGETS = ['CpProofs.C20', 'CpProofs.C20Freq', 'drv_c20']
 DRIVER = 'drv_c20'
 THEOREMS = [
+    # the frequency re-configured at run time: where the model reads it (lean/CpProofs/C20Freq.lean)
+    'CpProofs.C20Freq.stepCtl_ignores_frequency',
+    'CpProofs.C20Freq.stepW_ignores_frequency',
+    'CpProofs.C20Freq.step_ignores_frequency',
+    'CpProofs.C20Freq.C20_stop_ignores_frequency',
+    'CpProofs.C20Freq.C20_start_consults_frequency',
     'CpProofs.C20.C20_one_worker',
     'CpProofs.C20.C20_at_most_once_after_stop',
     'CpProofs.C20.C20_graceful_leaves_one',
